@@ -17,7 +17,15 @@ PROP = {
              "slices): Items, Marshal, Items, Get, Marshal, Put, Marshal ... every answer and every encoding vs the model, in which "
              "Marshal is a pure function of the pair list; oracles: Items() (as slices) is unchanged by Marshal/Get/Items, an "
              "unchanged object marshals to identical cells every time (also through its alias), every encoding decodes to the "
-             "current mapping, Get agrees with a reference map. Oracles on the implementation (streams 1-5): decode(encode m) = the pairs in ascending bit "
+             "current mapping, Get agrees with a reference map. (6b) the same histories with DECODE steps: another dictionary (empty / a subset / a superset / disjoint / same keys, any "
+             "label forms) is decoded INTO the used Hashmap / HashmapE variable or into a struct field holding it, repeatedly: every "
+             "later Items/Get/Put/Marshal equals that of a fresh variable decoding the same cell (model: the old state is not an "
+             "input of decode); (7) decoder configurations tlb.Unmarshal / NewDecoder() / WithLibraryResolver (with and without "
+             "hasher, with WithDebug) x value types Uint32, Ref[Uint32], Ref[boc.Cell] whose references are ordinary cells, library "
+             "cells known or unknown to the resolver, pruned branches or too short: result vs the model, whose value decoder takes "
+             "the resolver as context, and oracle 'a value decodes inside a dictionary exactly as it decodes outside under the same "
+             "decoder' (also for Ref[Message] values, which use the decoder's hasher: message hash inside = outside = cell hash). "
+             "Oracles on the implementation (streams 1-5): decode(encode m) = the pairs in ascending bit "
              "order; equal cells for two insertion orders and for NewHashmap vs Put; duplicate keys rejected; valid foreign "
              "dictionaries decode to their mapping; Get/Put answers and the re-encoded dictionary agree with a reference map; every "
              "key type marshals to FixedSize() bits; Keys/Values/Items consistent. corpus/C05 replays the inputs that failed before "
@@ -29,7 +37,9 @@ PROP = {
                     "well-formed Patricia tree with any of the three label forms per edge decodes to its mapping; Get/Put on a decoded "
                     "dictionary followed by Marshal/Unmarshal equal lookup/update of the abstract map for every Compare that is a "
                     "strict total order (also after any history of Put/Marshal/Items/Get on one object: C05_marshal_does_not_mutate, "
-                    "C05_history_marshal_sound), and the Compare of UintN/IntN/BitsN/AddressWithWorkchain is shown to be such an order "
+                    "C05_history_marshal_sound; decoding into a used object overwrites everything: C05_decode_overwrites_everything; the "
+                    "decoder context reaches every leaf unchanged, a dictionary decodes iff every leaf decodes under that context and "
+                    "then to exactly those values: C05_decoder_context_reaches_leaves), and the Compare of UintN/IntN/BitsN/AddressWithWorkchain is shown to be such an order "
                     "(numeric / two's complement / bytes / uint32(workchain)+bytes = bit order of the 288-bit key). "
                     "coq/Properties/C05_gen.v re-checks on today's source that every key type writes and reads exactly FixedSize() "
                     "bits and compares the way its encoding requires."),
@@ -39,6 +49,8 @@ PROP = {
                     "known finding addr-workchain-int8: AddressWithWorkchain.Workchain is int8, so foreign 288-bit keys with a workchain outside -128..127 are truncated by the key decoder (C05_address_workchain_int8_refuted); dictionary-level theorems are about key bits and unaffected",
                     "HashmapAug/HashmapAugE.MarshalTLB fails before touching the slices, so object histories do not apply to them",
                     "two objects built from the same slices alias each other by design of NewHashmap: the history stream only reads through an alias (Put through one alias is visible through the other)",
+                    "in the model exotic cells (library, pruned branch) exist only as references inside values (H05 represents them by an impossible 5-reference cell); library or pruned cells as dictionary NODES are not modelled",
+                    "after a decode ERROR the object's contents are unspecified (partial entries); histories stop comparing there",
                     "keys/values slices of different lengths (possible only through NewHashmap) now return an error; not representable in the model (list of pairs)"],
 }
 
@@ -50,10 +62,11 @@ META = {
              "dictionary with short/long/same labels per edge decodes to the mapping it represents; Get/Put on a decoded dictionary "
              "then Marshal/Unmarshal agree with lookup/update of the abstract map for every key type (unsigned, signed, bytes, 288-bit "
              "address keys). The extracted model reproduces the implementation's cell trees, decode results and Get/Put answers "
-             "exactly on ~18k (quick) / ~130k (thorough) generated cases incl. malformed dictionaries and multi-step histories on one "
+             "exactly on ~18k (quick) / ~135k (thorough) generated cases incl. malformed dictionaries and multi-step histories on one "
              "dictionary object (Marshal must not change what the object answers or how it encodes the next time)."),
     'design_ref': 'DESIGN.md §6 C05, §7 F19',
-    'note': ("Two defects repaired in /repo (AddressWithWorkchain.MarshalTLB missing; Hashmap.MarshalTLB depended on slice order); the "
+    'note': ("Three defects repaired in /repo (AddressWithWorkchain.MarshalTLB missing; Hashmap.MarshalTLB depended on slice order; "
+             "Hashmap/HashmapAug.UnmarshalTLB accumulated entries when decoding into a used variable); the "
              "old behaviour is kept as ..._before_fix in coq/Proofs/HashmapHistory.v and corpus/C05. One known finding "
              "(addr-workchain-int8). Trusted: Coq kernel, extraction, drivers, Go harness, C06 refinement of bit strings."),
     'technique': 'Coq: verified insertion sort + Patricia-tree representation theorem + label codec inversion; cell-exact extracted-model correspondence; translator obligations on key-type widths',
